@@ -464,6 +464,8 @@ func TestBlockPutFaults(t *testing.T) {
 		{Shard: "3blk", RplMin: 1, RplMax: 1, Rot: 0},    // single destination per shard
 		{Shard: "huge", RplMin: -1, RplMax: -1, Opts: 1}, // one shard everywhere
 		{Shard: "sum2", RplMin: 2, RplMax: 3, Rot: 2},    // three destinations
+		{RplMin: 0, RplMax: 0, Rot: 1},                   // factors left to the cluster default
+		{Shard: "3blk", RplMin: 0, RplMax: 0, Rot: 0},    // the same, sharded
 	}
 	bigVars := []variant{vars[1], vars[6]}
 	fewVars := []variant{vars[1], vars[3], vars[5], vars[8]}
